@@ -203,12 +203,12 @@ def run(P, rep, tier):
                     rep.violation(r3, 'stream-op:%s:%s' % (f.short, meth), f.loc(node),
                                   'the writer calls %s() on its output stream in %s: output is not append-only'
                                   % (meth, f.short), path=[f.short])
-    # positive control: the same query on the reader must see its seek()
+    # positive control: the same query on the reader must see its read/seek operations
     rc = P.cls('pydiffx.reader', 'DiffXReader')
     rattr = stream_attr(P, rc)
     ctrl = [m for f in rc.methods.values() for _, m in stream_ops(P, f, rattr)[0]]
-    if 'seek' not in ctrl:
-        raise AnalysisError('positive control failed: stream-operation query does not see the reader\'s seek()')
+    if not set(ctrl) - {'write'}:
+        raise AnalysisError('positive control failed: stream-operation query sees no non-write operation on the reader\'s stream')
     rep.extra['positive_control'] = 'stream-op query reports %s on the reader' % sorted(set(ctrl))
     rep.floor(r3, 1)
     # dynamic confirmation by the interpreter: stream events seen during exploration
